@@ -99,22 +99,36 @@ def ca_outer(v, old, le_):
     ] + md_clauses(v, old, i)
 
 
-def buffer_inv(v, old, j_bound, m):
-    """the k-nearest buffer after the samples < j_bound (other than i) have been offered; m real entries"""
-    sg = v.self
-    n = length(sg.nodes)
-    i, k = v.i, v.k
-    dist, nb, slot = v.distances, v.neighbours_idx, v.g_slot
+def buffer_clauses(n_train, k, dist, nb, slot, m, j_bound, wfun, excl=None):
+    """the k-nearest buffer after the training samples < j_bound (other than `excl`) have been offered; m real
+    entries; wfun(t) = weight between the sample being processed and training sample t"""
+    ok = (lambda t: True) if excl is None else (lambda t: ne(t, excl))
     return [
-        ("m", conj(le(0, m), le(m, k), eq(length(slot), n))),
+        ("m", conj(le(0, m), le(m, k), eq(length(slot), n_train))),
         ("sorted", forall(0, m, lambda r, s: implies(lt(r, s), le(dist[r], dist[s])))),
         ("filler", forall(m, k, lambda r: eq(dist[r], FLOAT_MAX))),
-        ("entries", forall(0, m, lambda r: conj(le(0, nb[r]), lt(nb[r], j_bound), ne(nb[r], i), eq(slot[nb[r]], r),
-                                                eq(dist[r], WS(v, i, nb[r])), lt(dist[r], FLOAT_MAX), ge(dist[r], 0)))),
-        ("offered", forall(0, j_bound, lambda t: implies(ne(t, i), conj(
+        ("entries", forall(0, m, lambda r: conj(le(0, nb[r]), lt(nb[r], j_bound), ok(nb[r]), eq(slot[nb[r]], r),
+                                                eq(dist[r], wfun(nb[r])), lt(dist[r], FLOAT_MAX), ge(dist[r], 0)))),
+        ("offered", forall(0, j_bound, lambda t: implies(ok(t), conj(
             le(0, slot[t]), le(slot[t], k),
             implies(lt(slot[t], m), eq(nb[slot[t]], t)),
-            implies(ge(slot[t], m), conj(eq(m, k), le(dist[k - 1], WS(v, i, t)))))))),
+            implies(ge(slot[t], m), conj(eq(m, k), le(dist[k - 1], wfun(t)))))))),
+    ]
+
+
+def buffer_inv(v, old, j_bound, m):
+    return buffer_clauses(length(v.self.nodes), v.k, v.distances, v.neighbours_idx, v.g_slot, m, j_bound,
+                          lambda t: WS(v, v.i, t), v.i)
+
+
+def bubble_clauses(k, c, dist, nb, d0, nb0, new_index, w_expected):
+    """insertion step relative to the buffer at the start of the bubble (d0, nb0): the new pair travels down"""
+    w = d0[k]
+    return [
+        ("c", conj(le(0, c), le(c, k))),
+        ("new", conj(eq(w, w_expected), eq(nb0[k], new_index), eq(dist[c], w), eq(nb[c], new_index))),
+        ("below", forall(0, c, lambda r: conj(eq(dist[r], d0[r]), eq(nb[r], nb0[r])))),
+        ("shifted", forall(c + 1, k + 1, lambda r: conj(eq(dist[r], d0[r - 1]), eq(nb[r], nb0[r - 1]), le(w, dist[r])))),
     ]
 
 
